@@ -43,6 +43,7 @@ func init() {
 				}
 			}
 			if next == nil {
+				in.hbBarrier()
 				return nil
 			}
 			type saved struct {
